@@ -421,6 +421,7 @@ fn judge_net(res: &mut ScnResult, kind: Kind, scheme: &str, out: &NetOutcome, fa
     res.count("fired.sender_crash", out.crash_fired);
     res.count("fired.fragmented_reads", out.fragmented_reads);
     res.count("fired.duplicate_delivery", out.dup_fired);
+    res.count("fired.retransmission_after_truncation", out.retransmit_fired);
     res.count("probe.message_buffered_before_local_round", out.buffered_early);
     res.count("probe.delivery_out_of_index_order", out.out_of_index_order as u64);
     res.count("probe.receive_between_own_sends", out.receive_between_own_sends);
@@ -436,6 +437,12 @@ fn judge_finish<T>(res: &mut ScnResult, kind: Kind, scheme: &str, party: usize, 
         // a duplicate was handed to this party: the property promises nothing about idempotence, so
         // neither refusing nor finishing is judged (only "incomplete => refuses" below still applies)
         res.count("probe.complete_party_saw_duplicate", 1);
+        return None;
+    }
+    if out.retx_seen[party] && out.complete[party] && r.is_err() {
+        // a full copy after a truncated one: refusing the second copy (or the finish) is not judged,
+        // but a value that is returned must be the right one (judged by the caller)
+        res.count("probe.refused_after_retransmission", 1);
         return None;
     }
     match (out.complete[party], r) {
@@ -1081,7 +1088,12 @@ fn gen_fault(rng: &mut Prng, scn: &Scn) -> (usize, FaultPlan) {
             plan.lost.insert(*rng.pick(&msgs));
         }
         2 => {
-            plan.truncated.insert(*rng.pick(&msgs), rng.usize_below(400));
+            let m = *rng.pick(&msgs);
+            plan.truncated.insert(m, if rng.coin() { rng.usize_below(400) } else { rng.usize_below(2400) });
+            // half the time the sender transmits the message again, in full
+            if rng.coin() {
+                plan.retransmit.insert(m);
+            }
         }
         3 => {
             let rounds = if kind == Kind::RelinKeys { 2 } else { 1 };
